@@ -7,10 +7,14 @@ import (
 	"math/rand/v2"
 	"os"
 	"runtime"
+	"regexp"
 	"sort"
 	"strconv"
+	"strings"
 	"sync"
+	"syscall"
 	"testing"
+	"time"
 )
 
 type Finding struct {
@@ -41,6 +45,9 @@ type Report struct {
 	exhaustive   string
 	journal      *os.File
 	sets         map[string]map[string]struct{}
+	aborted      string
+	guard        time.Duration
+	watch        map[string]*time.Timer
 }
 
 func envInt(name string, def int64) int64 {
@@ -147,6 +154,15 @@ func (r *Report) Obs(name string, n int64) {
 	r.mu.Unlock()
 }
 
+// ObsMax keeps the maximum of a measured quantity (reported as "max:<name>").
+func (r *Report) ObsMax(name string, v int64) {
+	r.mu.Lock()
+	if v > r.observed["max:"+name] {
+		r.observed["max:"+name] = v
+	}
+	r.mu.Unlock()
+}
+
 // ObsSet records membership of v in a named set; its size is reported as "distinct:<name>".
 func (r *Report) ObsSet(name, v string) {
 	r.mu.Lock()
@@ -196,8 +212,132 @@ func (r *Report) Violationf(key string, c any, format string, a ...any) {
 	r.Violation(key, fmt.Sprintf(format, a...), c)
 }
 
+// Guard arms a real-time watchdog for every case bracketed by Begin/End from now on: a case that
+// has not ended after limit is examined (see runaway).  Only for checks whose cases are client
+// inputs to a server - never for lanes in which the harness itself calls library functions in a
+// tight loop.  Call it outside any synctest bubble (the timer must run on real time).
+func (r *Report) Guard(limit time.Duration) {
+	r.mu.Lock()
+	r.guard = limit
+	if r.watch == nil {
+		r.watch = map[string]*time.Timer{}
+	}
+	r.mu.Unlock()
+}
+
+var goHdr = regexp.MustCompile(`^goroutine (\d+) \[([^\]]*)\]:`)
+
+func allStacks() string {
+	buf := make([]byte, 4<<20)
+	for {
+		n := runtime.Stack(buf, true)
+		if n < len(buf) {
+			return string(buf[:n])
+		}
+		buf = make([]byte, 2*len(buf))
+	}
+}
+
+// busyInRepo maps goroutine id -> the library function it is executing, for goroutines that are
+// running or runnable and whose innermost non-runtime, non-standard-library frame belongs to the
+// system under test.
+func busyInRepo(dump string) map[string]string {
+	out := map[string]string{}
+	for _, blk := range strings.Split(dump, "\n\n") {
+		lines := strings.Split(blk, "\n")
+		m := goHdr.FindStringSubmatch(lines[0])
+		if m == nil || !(strings.HasPrefix(m[2], "running") || strings.HasPrefix(m[2], "runnable")) {
+			continue
+		}
+		for _, l := range lines[1:] {
+			if strings.HasPrefix(l, "\t") || strings.HasPrefix(l, "created by") {
+				continue
+			}
+			if strings.Contains(l, "verifh/") || strings.Contains(l, "/verifhook.") {
+				break // harness code is what runs
+			}
+			if i := strings.Index(l, "zishang520/engine.io/v2/"); i >= 0 {
+				fn := l[i+len("zishang520/engine.io/v2/"):]
+				if j := strings.LastIndex(fn, "("); j > 0 {
+					fn = fn[:j]
+				}
+				out[m[1]] = fn
+				break
+			}
+			if strings.Contains(l, "zishang520/engine.io-go-parser") {
+				break // the parser dependency has its own (known) findings and lanes
+			}
+		}
+	}
+	return out
+}
+
+func cpuNow() time.Duration {
+	var ru syscall.Rusage
+	syscall.Getrusage(syscall.RUSAGE_SELF, &ru)
+	return time.Duration(ru.Utime.Sec+ru.Stime.Sec)*time.Second + time.Duration(ru.Utime.Usec+ru.Stime.Usec)*time.Microsecond
+}
+
+// runaway is the watchdog's verdict on a case that did not end.  Proof rule (DESIGN 2.5): four
+// goroutine dumps 700 ms apart all show the same goroutine running (or runnable) inside the same
+// library function, and the process burned at least one core-second meanwhile.  Proved: the case
+// is a violation (key runaway:<function>), the partial lane result is written and the process
+// ends (a spinning goroutine cannot be stopped).  Not proved: inconclusive, the lane goes on
+// waiting and the driver's lane timeout is the backstop.
+func (r *Report) runaway(id string, limit time.Duration, input any) {
+	c0 := cpuNow()
+	var common map[string]string
+	var last string
+	for k := 0; k < 4; k++ {
+		if k > 0 {
+			time.Sleep(700 * time.Millisecond)
+		}
+		last = allStacks()
+		b := busyInRepo(last)
+		if common == nil {
+			common = b
+			continue
+		}
+		for g, fn := range common {
+			if b[g] != fn {
+				delete(common, g)
+			}
+		}
+	}
+	cpu := cpuNow() - c0
+	r.mu.Lock()
+	_, still := r.watch[id]
+	r.mu.Unlock()
+	if !still {
+		return // the case ended while it was being examined
+	}
+	if len(common) == 0 || cpu < time.Second {
+		r.Inconclusive(fmt.Sprintf("case %s not finished after %v; no goroutine proved to be spinning in library code (cpu %v in 2.1 s)", id, limit, cpu))
+		return
+	}
+	var fns []string
+	for g, fn := range common {
+		fns = append(fns, fn+" (goroutine "+g+")")
+	}
+	sort.Strings(fns)
+	key := "runaway:" + strings.SplitN(fns[0], " ", 2)[0]
+	r.Violation(key, fmt.Sprintf("case %s had not finished %v (real time) after it began; four goroutine dumps 700 ms apart all show %s running in the same library function while the process used %v of CPU time: endless computation", id, limit, strings.Join(fns, ", "), cpu.Round(time.Millisecond)), input)
+	r.mu.Lock()
+	r.aborted = "runaway-proved"
+	r.mu.Unlock()
+	r.write(false)
+	fmt.Fprintf(os.Stderr, "RUNAWAY-PROVED case=%s %s\n%s\n", id, strings.Join(fns, ", "), last)
+	os.Exit(0)
+}
+
 // Begin/End journal a case that may kill or wedge the process.
 func (r *Report) Begin(id string, input any) {
+	r.mu.Lock()
+	if r.guard > 0 {
+		limit := r.guard
+		r.watch[id] = time.AfterFunc(limit, func() { r.runaway(id, limit, input) })
+	}
+	r.mu.Unlock()
 	if r.journal == nil {
 		return
 	}
@@ -208,6 +348,12 @@ func (r *Report) Begin(id string, input any) {
 }
 
 func (r *Report) End(id string) {
+	r.mu.Lock()
+	if t := r.watch[id]; t != nil {
+		t.Stop()
+		delete(r.watch, id)
+	}
+	r.mu.Unlock()
 	if r.journal == nil {
 		return
 	}
@@ -259,6 +405,7 @@ func (r *Report) write(done bool) {
 		"inconclusive":  r.inconclusive,
 		"exhaustive":    r.exhaustive,
 		"done":          done,
+		"aborted":       r.aborted,
 	}
 	b, err := json.Marshal(out)
 	if err != nil {
